@@ -253,6 +253,25 @@ fn chk_codec(c: Compression, kind: u64, size: usize, seed: u64) -> Result<(), St
             break;
         }
     }
+    // a source that answers Interrupted once in the middle of the stream: read_to_end retries, by std's contract, and the
+    // decoders must let it (brotli's adapter is left out if it does not do so on the unchanged code either)
+    if size <= 200_000 && c != Compression::Brotli {
+        let z = pmtiles2::util::compress_all(c, &data).map_err(|e| e.to_string())?;
+        for at in [1usize, 2, 3, 5] {
+            let mut src = crate::streams::SyncStream(crate::streams::Core::new(z.clone(), 0));
+            src.0.sched = crate::streams::Schedule { chunks: vec![7, 64, 3], pend: vec![] };
+            src.0.fail_at = Some(at);
+            src.0.fail_kind = usize::MAX;
+            let mut back = Vec::new();
+            {
+                let mut r = pmtiles2::util::decompress(c, &mut src).map_err(|e| e.to_string())?;
+                r.read_to_end(&mut back).map_err(|e| format!("decompress over a source that answers Interrupted once (at its call #{at}): {e}"))?;
+            }
+            if back != data {
+                return Err(format!("decompress over a source that answers Interrupted once (at its call #{at}) yields other bytes"));
+            }
+        }
+    }
     // async adapters
     let za = block_on(async {
         let mut out = futures::io::Cursor::new(Vec::<u8>::new());
